@@ -10,12 +10,15 @@ TipsAll == {1,2,3,4,5,6,7}
 \* long tree: main chain 1..12, fork 9-13-14
 Par14 == <<0,1,2,3,4,5,6,7,8,9,10,11,9,13>>
 Tips14 == {3, 10, 12}
+\* long tree with a heavier fork right behind block 11: main chain 1..12, fork 11-13-14-15
+Par15 == <<0,1,2,3,4,5,6,7,8,9,10,11,11,13,14>>
+Tips15 == {1}
 NoFix == {}
-CodeFix == {"stale"}   \* repaired in the code (fix: commits)
-AllFix == {"inflight", "recheck", "stale", "blockinv"}
-FixNoInv == {"inflight", "recheck", "stale"}
-FixNoInvNoStale == {"inflight", "recheck"}
+CodeFix == {"stale", "unknownpoll"}   \* repaired in the code (fix: commits)
+AllFix == {"inflight", "recheck", "stale", "blockinv", "unknownpoll"}
+FixNoInv == {"inflight", "recheck", "stale", "unknownpoll"}
+FixNoInvNoStale == {"inflight", "recheck", "unknownpoll"}
 Unb == 0 - 1
 View == <<ptip, tipc, pann, sendhdrs, net, out, chain, startH, req, toReq, lastSaved, infl, inSync,
-          pendSync, hdrReq, hsDone, notified, badNotify, restarts, prs, dups, advs, unts>>
+          pendSync, hdrReq, hsDone, notified, badNotify, restarts, prs, dups, advs, unts, chk>>
 ====
